@@ -717,6 +717,7 @@ func (c *c02ctx) validateFacts() (map[int64]lenFact, []string) {
 		}
 		f := lenFact{eq: -1}
 		emptyExit := false
+		var eqTable map[int64]int64 // per-type exact length established through a table on this path
 		for i := 0; i+1 < len(path); i++ {
 			cond, isTrue, ok := edgeTaken(path[i], path[i+1])
 			if !ok {
@@ -725,6 +726,26 @@ func (c *c02ctx) validateFacts() (map[int64]lenFact, []string) {
 			bo, ok := cond.(*ssa.BinOp)
 			if !ok {
 				continue
+			}
+			// table form: `want := lengthTable[ty]; want != 0 && dec.len() != want`
+			if tbl, ok := tableLookupByType(p, bo.X, isTypeCall); ok {
+				if z, isZ := constIntVal(bo.Y); isZ && z == 0 {
+					nonZero := (bo.Op == token.NEQ && isTrue) || (bo.Op == token.EQL && !isTrue)
+					for t := range admitted {
+						if (tbl[t] != 0) != nonZero {
+							delete(admitted, t)
+						}
+					}
+				}
+				continue
+			}
+			if isLenCall(bo.X) {
+				if tbl, ok := tableLookupByType(p, bo.Y, isTypeCall); ok {
+					if (bo.Op == token.NEQ && !isTrue) || (bo.Op == token.EQL && isTrue) {
+						eqTable = tbl
+					}
+					continue
+				}
 			}
 			cv, isConst := constIntVal(bo.Y)
 			if !isConst {
@@ -798,6 +819,13 @@ func (c *c02ctx) validateFacts() (map[int64]lenFact, []string) {
 			continue
 		}
 		for t := range admitted {
+			f := f
+			if eqTable != nil && eqTable[t] != 0 {
+				f.eq = eqTable[t]
+				if f.eq > f.min {
+					f.min = f.eq
+				}
+			}
 			if !first[t] {
 				first[t] = true
 				facts[t] = f
@@ -819,6 +847,95 @@ func (c *c02ctx) validateFacts() (map[int64]lenFact, []string) {
 		}
 	}
 	return facts, problems
+}
+
+// tableLookupByType: v is `T[ty]` with T a package-level array (or slice/map literal) of integer constants filled once at
+// initialisation and ty the item's type; returns the table.
+func tableLookupByType(p *Program, v ssa.Value, isTypeCall func(ssa.Value) bool) (map[int64]int64, bool) {
+	ld, ok := v.(*ssa.UnOp)
+	if !ok || ld.Op != token.MUL {
+		return nil, false
+	}
+	ia, ok := ld.X.(*ssa.IndexAddr)
+	if !ok {
+		return nil, false
+	}
+	g, ok := ia.X.(*ssa.Global)
+	if !ok {
+		return nil, false
+	}
+	idx := ia.Index
+	if cv, ok := idx.(*ssa.Convert); ok {
+		idx = cv.X
+	}
+	if !isTypeCall(idx) && !isTypeValue(idx) {
+		return nil, false
+	}
+	tbl := map[int64]int64{}
+	okAll := true
+	scan := func(fn *ssa.Function, isInit bool) {
+		allInstrs(fn, func(in ssa.Instruction) {
+			st, ok := in.(*ssa.Store)
+			if !ok {
+				return
+			}
+			// element stores straight into the global
+			if ia2, ok := st.Addr.(*ssa.IndexAddr); ok && ia2.X == ssa.Value(g) {
+				k, ok1 := constIntVal(ia2.Index)
+				val, ok2 := constIntVal(st.Val)
+				if !isInit || !ok1 || !ok2 {
+					okAll = false
+					return
+				}
+				tbl[k] = val
+				return
+			}
+			if st.Addr != ssa.Value(g) {
+				return
+			}
+			if !isInit {
+				okAll = false
+				return
+			}
+			// whole-value store of a composite literal built in a temporary
+			ld, ok := st.Val.(*ssa.UnOp)
+			if !ok {
+				okAll = false
+				return
+			}
+			tmp, ok := ld.X.(*ssa.Alloc)
+			if !ok {
+				okAll = false
+				return
+			}
+			for _, ref := range *tmp.Referrers() {
+				ia3, ok := ref.(*ssa.IndexAddr)
+				if !ok {
+					continue
+				}
+				k, ok1 := constIntVal(ia3.Index)
+				for _, r2 := range *ia3.Referrers() {
+					if s2, ok := r2.(*ssa.Store); ok && s2.Addr == ssa.Value(ia3) {
+						val, ok2 := constIntVal(s2.Val)
+						if !ok1 || !ok2 {
+							okAll = false
+							continue
+						}
+						tbl[k] = val
+					}
+				}
+			}
+		})
+	}
+	for _, fn := range p.OwnFuncs() {
+		scan(fn, isInitFunc(fn))
+	}
+	if g.Pkg != nil {
+		if init := g.Pkg.Func("init"); init != nil {
+			scan(init, true)
+		}
+	}
+	return tbl, okAll && len(tbl) > 0
 }
 
 // isTypeValue: a value derived from dec.Type() kept in a local (ty := dec.Type()).
@@ -989,6 +1106,41 @@ func (c *c02ctx) r4Indexing() {
 				if c.loopIndexBounded(x, idx, in) {
 					r.OK("C02.R4", key, pos, "loop index bounded by len of the indexed value")
 					return
+				}
+				// a fixed-size array indexed by a value a dominating comparison keeps below its length
+				if n := arrayLenOf(x); n > 0 {
+					iv := idx
+					if cv, ok := iv.(*ssa.Convert); ok {
+						iv = cv.X
+					}
+					bound := int64(-1)
+					if b, ok := iv.Type().Underlying().(*types.Basic); ok && b.Kind() == types.Uint8 {
+						bound = 255
+					}
+					for _, dc := range dominatingConds(in.Block()) {
+						bo, ok := dc.cond.(*ssa.BinOp)
+						if !ok || (bo.X != iv && bo.X != idx) {
+							continue
+						}
+						kk, ok := constIntVal(bo.Y)
+						if !ok {
+							continue
+						}
+						switch {
+						case bo.Op == token.GTR && !dc.outcome, bo.Op == token.LEQ && dc.outcome:
+							if bound < 0 || kk < bound {
+								bound = kk
+							}
+						case bo.Op == token.GEQ && !dc.outcome, bo.Op == token.LSS && dc.outcome:
+							if bound < 0 || kk-1 < bound {
+								bound = kk - 1
+							}
+						}
+					}
+					if bound >= 0 && bound < n {
+						r.OK("C02.R4", key, pos, "array of %d elements indexed by a value bounded by %d (dominating comparison / type range)", n, bound)
+						return
+					}
 				}
 				r.Unk("C02.R4", key, pos, "index expression of %s not understood", describeVal(x))
 				return
@@ -1921,4 +2073,17 @@ func (c *c02ctx) r9LengthArith() {
 			r.Unk("C02.R9", "ttlv.ttlvReader.paddedLen/roundup", fn.Pos(), "paddedLen() is not one of the recognised round-up idioms (l + padForLen(l, 8), (l+7) &^ 7 on the int returned by len()): paddedLen() >= len() cannot be established")
 		}
 	}
+}
+
+
+// arrayLenOf: x is (a pointer to) a fixed-size array; its length, else 0.
+func arrayLenOf(x ssa.Value) int64 {
+	t := x.Type().Underlying()
+	if p, ok := t.(*types.Pointer); ok {
+		t = p.Elem().Underlying()
+	}
+	if a, ok := t.(*types.Array); ok {
+		return a.Len()
+	}
+	return 0
 }
